@@ -65,7 +65,8 @@ Exposed(seq, i) == /\ ~Spell[seq[i]].hide
 NeedExposed(seq, w) == Cardinality({i \in 1 .. Len(seq) : Spell[seq[i]].w = w /\ Exposed(seq, i) /\ ~IsLabel(seq, i)})
 \* cnt: word -> occurrences in the rendering's text (markup removed); carries: the format keeps the source text itself
 \* (metadata keys are unique: when the block at the top gives the key a second time, that value -- and the lines it lazily continues over -- is not kept anywhere)
-DupKey(seq) == Len(seq) >= 2 /\ Spell[seq[1]].t = "Key: value" /\ \E i \in 2 .. Len(seq) : Spell[seq[i]].t = "Key: value" /\ \A j \in 2 .. i : Spell[seq[j]].t # ""
+MetaStart(seq) == IF Spell[seq[1]].t = "---" THEN 2 ELSE 1          \* (the block may be YAML-fenced)
+DupKey(seq) == LET m == MetaStart(seq) IN Len(seq) > m /\ Spell[seq[m]].t = "Key: value" /\ \E i \in (m + 1) .. Len(seq) : Spell[seq[i]].t = "Key: value" /\ \A j \in (m + 1) .. i : Spell[seq[j]].t # ""
 Complete(seq, cnt, carries) == IF (carries /\ ~DupKey(seq)) \/ Readable(seq) THEN \A w \in Words : cnt[w] >= Need(seq, w)
                                ELSE \A w \in Words : cnt[w] >= NeedExposed(seq, w)
 =============================================================================
